@@ -25,8 +25,9 @@ def netns(cmd):
     return "unshare -n sh -c 'ip link set lo up && %s'" % cmd
 
 def verify(seed_dir):
-    prop, k = seed_dir.rstrip("/").split("/")[-2:]
-    sid = "%s-%s" % (prop, k)
+    tag, k = seed_dir.rstrip("/").split("/")[-2:]
+    prop = tag.lstrip("U")  # second-round seeds live under /tmp/seed/UCxx
+    sid = "%s-%s" % (tag, k)
     wt = "/tmp/seedwt/" + sid
     res = {"id": sid, "property": prop}
     sh("git -C /repo worktree remove --force %s" % wt)
@@ -117,7 +118,7 @@ def verify(seed_dir):
 
 def main():
     os.makedirs("/tmp/seedwt", exist_ok=True)
-    dirs = sorted(d for d in glob.glob("/tmp/seed/C*/[0-9]") if os.path.exists(os.path.join(d, "patch.diff")))
+    dirs = sorted(d for d in glob.glob("/tmp/seed/C*/[0-9]") + glob.glob("/tmp/seed/UC*/[0-9]") if os.path.exists(os.path.join(d, "patch.diff")))
     if len(sys.argv) > 1:
         dirs = [d for d in dirs if any(a in d for a in sys.argv[1:])]
     with ThreadPoolExecutor(max_workers=5) as ex:
